@@ -1051,6 +1051,19 @@ CHECKS = {
             "server's content is reported under one of three signatures "
             "(content differs for an object the server holds / object of "
             "the server not listed / entries the server does not hold). "
+            " Wave 5 (remote part, every third history of a shard): CA x of "
+            "this instance has its parent rp in a SECOND krill instance and, "
+            "after a move, its publication server there too (in-process "
+            "transport, hook H7). 14 (thorough: 40) steps of {entitlement "
+            "change by the remote parent, ROA change, move to the other "
+            "server, roll start, nothing} x {no fault, server unreachable, "
+            "reply lost}, each followed by one explicit parent and one "
+            "explicit repository synchronisation whose outcome the harness "
+            "knows: failure shown (with an error) exactly when the attempt "
+            "failed; success with the entitlement the parent holds (when "
+            "the synchronisation asked for it); published list = what the "
+            "second server holds; the remote parent's own status for its "
+            "child x; everything unchanged by a restart every fifth step."
         ),
         "assumptions": COMMON_ASSUMPTIONS + [
             "refusals have real causes only (child removed at the parent, "
@@ -1200,6 +1213,8 @@ CHECKS = {
             "carry the same number after each. distinct_nontrivial = "
             "distinct (timing configuration, key state, due/not-due/"
             "boundary/nothing-due, object kind or run mode) cells."
+            " Wave 5: worlds with an odd scenario seed publish their ROAs "
+            "aggregated per AS number (thresholds 1/1)."
         ),
         "assumptions": COMMON_ASSUMPTIONS + [RP_ASSUMPTION,
             "due / not due is computed by the harness from the decoded "
@@ -1271,6 +1286,19 @@ CHECKS = {
             " Round d/e: cases alternate between simple and aggregated "
             "(per-ASN) ROA mode; the manifest of every non-current key "
             "(new, old) must list nothing besides its CRL. "
+            " Wave 5 (lossy network): a third target x is a CA of this "
+            "instance whose parent lives in a SECOND krill instance (itself "
+            "a child of this instance's p), reached through the in-process "
+            "transport hook H7; in the 'migrated' variant x also publishes "
+            "at the second instance's server. x's roll is run plain and "
+            "with the REPLY to the n-th next protocol message (n in 0..2) "
+            "lost at each of the 5 gaps - the server acted, the sender saw a "
+            "failed exchange - 2 x 16 cases (7 of them among the cases run "
+            "first in quick). The completion driver (every CA of both "
+            "instances calls its parents and its publication server) must "
+            "bring the roll to the single-active-key state with an exact "
+            "tree; a failed exchange waiting for krill's five-minute retry "
+            "counts as outstanding work for the mid-roll exactness check."
         ),
         "assumptions": COMMON_ASSUMPTIONS + [RP_ASSUMPTION,
             "orders of background tasks other than the ones the scripted "
